@@ -237,7 +237,6 @@ impl Compactor {
         loop {
             {
                 let tables = self.storage.tables.read().clone();
-                let pin_version = self.storage.version.pin();
                 #[cfg(feature = "verif")]
                 crate::verif::point("compactor.pass_begin", &[]).await;
                 for (_, table) in tables {
@@ -247,9 +246,14 @@ impl Compactor {
                         .storage
                         .txn_mgr
                         .try_lock_for_compaction(table.table_id())
-                        && let Err(err) = self.compact_table(&pin_version.snapshot, table).await
                     {
-                        warn!("failed to compact: {:?}", err);
+                        // Pin the snapshot under the table lock: with one snapshot per pass, a
+                        // delete committed on this table after the pass started is missing from
+                        // it, and compacting from it would bring the deleted rows back.
+                        let pin_version = self.storage.version.pin();
+                        if let Err(err) = self.compact_table(&pin_version.snapshot, table).await {
+                            warn!("failed to compact: {:?}", err);
+                        }
                     }
                 }
                 #[cfg(feature = "verif")]
